@@ -376,6 +376,7 @@ pub fn tables(cwfile: &str, alnumfile: &str) {
             let direct = unicode_width::UnicodeWidthChar::width(c).unwrap_or(0);
             if c != '\x1b' && direct != w {
                 mism += 1;
+                println!("mismatch dw U+{:04X} display_width={} unicode-width={}", u, w, direct);
             }
         }
         #[cfg(not(feature = "full"))]
@@ -383,6 +384,7 @@ pub fn tables(cwfile: &str, alnumfile: &str) {
             let direct = if u < 0x1100 { 1 } else { 2 };
             if c != '\x1b' && direct != w {
                 mism += 1;
+                println!("mismatch dw U+{:04X} display_width={} rule={}", u, w, direct);
             }
         }
         match run {
@@ -673,6 +675,7 @@ pub fn run(fields: &[&str]) -> String {
                 fill_enc(&ab, &o),
                 fill_enc(&t_lf, &olf),
                 fill_enc(&t_cr, &ocr),
+                fill_enc(&b, &o),
             ]
             .join("\t")
         }
@@ -930,9 +933,22 @@ fn gen_lws(r: &mut Rng, frac: bool, maxlen: usize) -> String {
 pub fn generate<W: Write>(mode: &str, r: &mut Rng, out: &mut W) {
     let f: Vec<String> = match mode {
         "dw" => {
-            let t = match r.below(4) {
+            let t = match r.below(5) {
                 0 => gen::raw_text(r, 12),
-                1 => gen::text_over(r, &["a", "\x1b", "[", "]", "m", "\x07", "\\", "Ｈ", "\u{301}"], 8),
+                1 => gen::text_over(r, &["a", "\x1b", "[", "]", "m", "\x07", "\\", "Ｈ", "\u{301}", "~", "\x7f"], 8),
+                2 => {
+                    // well-formed: plain characters and whole sequences of every kind
+                    let mut t = String::new();
+                    for _ in 0..r.below(8) {
+                        match r.below(5) {
+                            0 => t.push_str(r.ps(gen::SGR)),
+                            1 => t.push_str(r.ps(gen::OTHER_SEQ)),
+                            2 => t.push_str(r.ps(gen::OSC_OPEN)),
+                            _ => t.push_str(r.ps(&["a", "b", " ", "é", "Ｈ", "\x7f", "\t", "\\", "]", "m", "\u{301}", "😭"])),
+                        }
+                    }
+                    t
+                }
                 _ => gen::paragraph(r, 5, 2),
             };
             vec!["dw".into(), enc::s(&t)]
@@ -1058,10 +1074,10 @@ pub fn generate<W: Write>(mode: &str, r: &mut Rng, out: &mut W) {
         }
         "dedent" => {
             let t = match r.below(3) {
-                0 => gen::text_over(r, &[" ", "\t", "\u{a0}", "a", "\n", "  ", "\r\n", "\r"], 12),
+                0 => gen::text_over(r, &[" ", "\t", "\u{a0}", "a", "\n", "  ", "\r\n", "\r", "\u{2003}", "\u{2002}", "\u{ad}", "\u{85}", "\u{3000}", "\n"], 12),
                 1 => {
                     // indented block with blank lines of various shapes
-                    let margin = gen::text_over(r, &[" ", " ", "\t", "\u{a0}"], 4);
+                    let margin = gen::text_over(r, &[" ", " ", "\t", "\u{a0}", "\u{2003}", "\u{3000}"], 4);
                     let n = r.range(1, 5);
                     let mut s = String::new();
                     for i in 0..n {
@@ -1237,6 +1253,10 @@ pub fn generate<W: Write>(mode: &str, r: &mut Rng, out: &mut W) {
                         1 => {
                             let k = r.below(margin.chars().count() + 1);
                             s.extend(margin.chars().take(k));
+                            // sometimes a sibling character sharing UTF-8 lead bytes with the margin's
+                            if r.chance(1, 3) {
+                                s.push_str(r.ps(&["\u{2002}", "\u{ad}", "\u{85}", "\u{3001}", "\u{a1}"]));
+                            }
                             s.push_str(r.ps(gen::VOCAB));
                         }
                         2 => s.push_str(&gen::text_over(r, &[" ", "\t", "a", "\r", "b"], 5)),
